@@ -82,6 +82,8 @@ def build_pup():
     d = os.path.join(VERIF, "sim", "pup")
     _sync_lock(d)
     env = _cargo_env(False)
+    # static: the puppet must start under RLIMIT_NOFILE values that leave no descriptor for ld.so
+    env["RUSTFLAGS"] = "-C target-feature=+crt-static"
     env["CARGO_TARGET_DIR"] = PUP_TARGET
     _run_cargo(["build", "--release", "--offline"], d, env, "pup (puppet)")
     return PUP_BIN
